@@ -26,21 +26,25 @@ Inductive dial := DRefused | DHang | DConnect (i : nat).
 
 Inductive vkind :=
 | VOk | VWrongId | VBadTag | VBadSig | VAuth | VInvalid | VGarbage | VPeerClose | VPeerReset | VHttp4xx
-| VOkFin | VOkRst.   (* answers ok, then closes (FIN) / resets (RST) the connection delta ticks into connection_made(True) *)
+| VOkFin | VOkRst     (* answers ok, then closes (FIN) / resets (RST) the connection delta ticks into connection_made(True) *)
+| VOkBad.             (* answers ok, then answers the re-subscribe request with an unusable body: the controller hangs up *)
 
 Inductive vclass := KOk | KWrong | KAuth | KOther.
 (* scripted loss of the connection inside the connector's connection_made(True) window: Some reset *)
 Definition loss_of (k : vkind) : option bool :=
-  match k with VOkFin => Some false | VOkRst => Some true | _ => None end.
+  match k with VOkFin | VOkBad => Some false | VOkRst => Some true | _ => None end.
+(* VOkBad: put_json closes the transport itself and raises AccessoryDisconnectedError, which subscribe() swallows like the
+   failure after a FIN: the connector returns, connection_lost (not abandoned) then starts a fresh connector *)
 Definition vclass_of (k : vkind) : vclass :=
   match k with
-  | VOk | VOkFin | VOkRst => KOk | VWrongId => KWrong | VAuth => KAuth
+  | VOk | VOkFin | VOkRst | VOkBad => KOk | VWrongId => KWrong | VAuth => KAuth
   | _ => KOther     (* HomeKitException subclasses and foreign exceptions: retried with back-off *)
   end.
 
 Inductive control :=
 | Ensure (w : nat) | Cancel (w : nat) | Zeroconf (hs : list hostid) | Soon
-| Drop (c : cid) | DropReset (c : cid) | Close | Shutdown.
+| Drop (c : cid) | DropReset (c : cid) | Close | Shutdown
+| BadReply (v : nat).   (* an API request on the established session gets an unusable reply (variant v): the controller hangs up *)
 
 (* connector task *)
 Inductive phase :=
@@ -336,6 +340,13 @@ Definition apply_control (c : control) (s : st) : st :=
       else s
   | Close => emit (EvReturned false) (do_close s)
   | Shutdown => emit (EvReturned true) (do_close (set_shut true s))
+  | BadReply _ =>
+      (* put_json / post_json / post_tlv on an established session (connector finished): non-UTF-8 or malformed body,
+         or HTTP 4xx to a TLV POST -> self.transport.close(); the caller gets AccessoryDisconnectedError (post_tlv: the
+         decoded error body); connection_lost of the still current transport -> _drop_transport, _start_connector *)
+      if connected s && negb (running s) then
+        match cur s with Some c => lose_current false c s | None => s end
+      else s
   end.
 
 (* ---- timers ---- *)
